@@ -294,8 +294,8 @@ impl ArenaModel {
         if matches!(self.profile, Profile::AllocApi | Profile::ApiSweep) {
             // through the Allocator trait, "does not overlap any other live block" and "deallocate never
             // affects the others" are part of C12's contract as well as of C01/C02
-            let mirrored: Vec<Violation> = out.violations.iter().filter(|v| (v.prop == 1 && v.clause.starts_with("overlaps")) || (v.prop == 2 && v.clause == "live_block_changed"))
-                .map(|v| Violation { prop: 12, clause: if v.prop == 1 { "block_overlaps_live_block" } else { "other_block_affected" }, key: format!("{}/{}", if v.prop == 1 { "block_overlaps_live_block" } else { "other_block_affected" }, v.key.split('/').skip(1).collect::<Vec<_>>().join("/")), detail: v.detail.clone(), unsafe_mem: v.unsafe_mem }).collect();
+            let mirrored: Vec<Violation> = out.violations.iter().filter(|v| v.prop == 1 || (v.prop == 2 && v.clause == "live_block_changed"))
+                .map(|v| Violation { prop: 12, clause: if v.prop == 2 { "other_block_affected" } else if v.clause.starts_with("overlaps") { "block_overlaps_live_block" } else { "block_outside_arena_memory" }, key: format!("{}/{}", if v.prop == 2 { "other_block_affected" } else if v.clause.starts_with("overlaps") { "block_overlaps_live_block" } else { "block_outside_arena_memory" }, v.key.split('/').skip(1).collect::<Vec<_>>().join("/")), detail: v.detail.clone(), unsafe_mem: v.unsafe_mem }).collect();
             out.violations.extend(mirrored);
         }
         (out, world.trace.take().unwrap_or_default())
@@ -568,6 +568,14 @@ impl ArenaModel {
                     a.push(Act::Allocate { size: s, al: 0 });
                 }
                 a.push(Act::Allocate { size: 449, al: 4 });
+                if last {
+                    // sizes above every address, with alignments above and below MIN_ALIGN
+                    for size in [1usize << 47, (1usize << 62) + 8, isize::MAX as usize - 4095] {
+                        for al in [0u8, 3, 4, 5, 12] {
+                            a.push(Act::Allocate { size, al });
+                        }
+                    }
+                }
                 for h in 0..(nraw.min(3) as u8) {
                     let (s0, a0) = raw_sz(h).unwrap();
                     let a0l = crate::util::log2(a0);
@@ -724,6 +732,10 @@ impl ArenaModel {
                 } else {
                     a.push(Act::SetLimit { some: true, val: held_usable });
                     a.push(Act::SetLimit { some: true, val: held_usable + 200_000 });
+                    // headrooms around the sizes of the chunks the over-aligned requests need
+                    for extra in [9_000usize, 13_000, 17_000, 21_000, 25_000, 29_000, 33_000, 74_000, 78_000, 82_000] {
+                        a.push(Act::SetLimit { some: true, val: held_usable + extra });
+                    }
                 }
             }
             Profile::ApiSweep => {
